@@ -1957,8 +1957,10 @@ impl Formatter {
       <span class=\"mech-state-variables\">{}</span>
       <span class=\"mech-right-paren\">)</span>
       </div>",name,state_variables)
+    } else if node.state_variables.is_some() {
+      format!(":{}({})", name, state_variables)
     } else {
-      format!("{}({})", name, state_variables)
+      format!(":{}", name)
     }
   }
 
